@@ -87,7 +87,7 @@ def sweep2_cases(r, n):
             tt[i - stz, j - stx] = tv                  # tev == tv
         out.append({"op": "sweep2", "tt": tt, "slow": slow, "i": i, "j": j, "dir": [svz, svx, stz, stx],
                     "zsi": zsi, "xsi": xsi, "zsa": zsi + fz, "xsa": xsi + fx, "vzero": vz, "dz": dz, "dx": dx,
-                    "grad": int(r.integers(0, 2)), "meta": {"rich": rich, "far": far, "k": k}})
+                    "grad": int(r.integers(0, 2)), "sgm": int(r.integers(0, 2)), "meta": {"rich": rich, "far": far, "k": k}})
     return out
 
 
@@ -113,7 +113,7 @@ def sweep3_cases(r, n):
         elif k == 2:
             tt[i, j, kk] = tt[i - st[0], j, kk] + d[0] * 0.5   # old value equal to a plausible candidate
         out.append({"op": "sweep3", "tt": tt, "slow": slow, "i": i, "j": j, "k": kk, "dir": sv + st,
-                    "dz": d[0], "dx": d[1], "dy": d[2], "grad": int(r.integers(0, 2)),
+                    "dz": d[0], "dx": d[1], "dy": d[2], "grad": int(r.integers(0, 2)), "sgm": int(r.integers(0, 2)),
                     "meta": {"rich": rich, "k": k}})
     return out
 
@@ -168,7 +168,28 @@ def interp_cases(r, n, nd, vinterp=False):
     return out
 
 
+def solver_cases(r, n, nd):
+    """whole-solver inputs: shapes incl. 1-cell-thick, spacings, media, every source class, both flag values"""
+    out = []
+    for _ in range(n):
+        sh = G.shape(r, nd, 1, 7 if nd == 2 else 4)
+        d = G.spacing(r, nd)
+        v, kind = G.medium(r, sh)
+        src, cls = G.source_grid_rel(r, sh, d)
+        t = {"op": f"fteik{nd}d", "slow": 1.0 / v, "dz": d[0], "dx": d[1], "zs": src[0], "xs": src[1],
+             "nsweep": int(r.integers(0, 4)), "grad": int(r.integers(0, 2)),
+             "meta": {"shape": sh, "d": d, "medium": kind, "cls": cls, "k": cls, "rich": kind}}
+        if nd == 3:
+            t.update(dy=d[2], ys=src[2])
+        if r.integers(0, 8) == 0:       # outside the model: the error path
+            t["zs"] = -abs(t["zs"]) - 0.1 if r.integers(0, 2) else sh[0] * d[0] + 0.3
+        out.append(t)
+    return out
+
+
 FAMILIES = {
+    "F2.fteik2d": lambda r, n: solver_cases(r, max(n // 3, 20), 2),
+    "F3.fteik3d": lambda r, n: solver_cases(r, max(n // 4, 15), 3),
     "F2.sweep": lambda r, n: sweep2_cases(r, n),
     "F3.sweep": lambda r, n: sweep3_cases(r, n),
     "I2._interp2d": lambda r, n: interp_cases(r, n, 2),
